@@ -139,7 +139,9 @@ func (g *gen) recordLine(df *dataFile, o dataOpts, name, zone string) string {
 		txt := g.pick([]string{"hello", "v=spf1\\040-all", "a\\072b", strings.Repeat("x", 130), "", "q\\042uote"})
 		return g.join("'", []string{name, txt, g.ttl(), "", lo})
 	case 6: // @
-		mx := g.pick([]string{"mx1", "mail." + zone, "MAIL." + zone, "mx.other.net"})
+		// (".": the null MX of RFC 7505; "mailhub.": a fully qualified single label - neither is the
+		// bare-label shorthand that expands to x.mx.<zone>)
+		mx := g.pick([]string{"mx1", "mail." + zone, "MAIL." + zone, "mx.other.net", ".", "mailhub."})
 		ip := ""
 		if g.bool() {
 			ip = g.ip(o)
@@ -150,7 +152,7 @@ func (g *gen) recordLine(df *dataFile, o dataOpts, name, zone string) string {
 		if g.bool() {
 			ip = g.ip(o)
 		}
-		return g.join("S", []string{strings.TrimPrefix(name, "*."), ip, g.pick([]string{"s1", "srv." + zone}), g.pick([]string{"", "443", "65535"}), g.pick([]string{"", "1"}), g.pick([]string{"", "5"}), g.ttl(), "", lo})
+		return g.join("S", []string{strings.TrimPrefix(name, "*."), ip, g.pick([]string{"s1", "srv." + zone, ".", "host."}), g.pick([]string{"", "443", "65535"}), g.pick([]string{"", "1"}), g.pick([]string{"", "5"}), g.ttl(), "", lo})
 	case 8: // : generic (type 99 SPF-like TXT-shaped rdata, or CAA 257)
 		if g.bool() {
 			return g.join(":", []string{strings.TrimPrefix(name, "*."), "99", "\\005hello", g.ttl(), "", lo})
@@ -224,7 +226,7 @@ func (g *gen) genDataFile(o dataOpts) *dataFile {
 			}
 			if !taken {
 				z.deleg = append(z.deleg, child)
-				df.lines = append(df.lines, g.join("&", []string{child, g.pick([]string{"", g.ip4()}), g.pick([]string{"ns1." + child, "ns.elsewhere.org", "c"}), g.ttl(), "", ""}))
+				df.lines = append(df.lines, g.join("&", []string{child, g.pick([]string{"", g.ip4()}), g.pick([]string{"ns1." + child, "ns.elsewhere.org", "c", "nshost."}), g.ttl(), "", ""}))
 				if g.bool() {
 					df.lines = append(df.lines, g.join("&", []string{child, g.ip(o), "d", "", "", ""}))
 				}
